@@ -178,8 +178,8 @@ var narrowIntended = map[string]struct {
 	n   int
 	why string
 }{
-	"sql.yylex1 int→uint":                 {1, "goyacc skeleton (token number used as a table index after its own range test)"},
-	"(sqlittle.Row).Scan int64→int32":     {1, "documented Scan destination *int32 (CONV checks the conversion table)"},
+	"sql.yylex1 int→uint":             {1, "goyacc skeleton (token number used as a table index after its own range test)"},
+	"(sqlittle.Row).Scan int64→int32": {1, "documented Scan destination *int32 (CONV checks the conversion table)"},
 }
 
 // narrowDelegated: the decoders of the file format's integers. Reinterpreting bytes as two's complement is what they do;
@@ -259,7 +259,6 @@ func runNarrow(c *Ctx) {
 	}
 }
 
-
 func runCollateVerbatim(c *Ctx) {
 	p := c.P
 	g, why := loadGrammar(p)
@@ -299,7 +298,6 @@ func runCollateVerbatim(c *Ctx) {
 		c.Undecided("COLLATE productions", token.NoPos, "the grammar has no `… → COLLATE name` production any more")
 	}
 }
-
 
 func runPayloadRaw(c *Ctx) {
 	p := c.P
@@ -353,7 +351,6 @@ func runPayloadRaw(c *Ctx) {
 		c.Undecided("reader of cellPayload.Payload", token.NoPos, "nothing reads cellPayload.Payload any more: the anchor of this rule is gone")
 	}
 }
-
 
 // runeFacts: what a path established about the rune `r`: unicode predicates with their polarity and comparisons with
 // constants.
@@ -541,7 +538,6 @@ func runTokStart(c *Ctx) {
 
 const zero_ = zero
 
-
 func runWRKeyDedup(c *Ctx) {
 	p := c.P
 	fn := findFn(p, "db.newCreateTable")
@@ -578,12 +574,73 @@ func runWRKeyDedup(c *Ctx) {
 			c.Undecided(key, call.Pos(), "the key is computed by something this rule cannot read")
 			continue
 		}
-		if p.FnKey(f) == "(*db.Schema).toIndexColumns" {
-			c.Fail(key, call.Pos(), "the constraint's column list becomes the key as written: for PRIMARY KEY (a, b, a) SQLite stores (a, b) and then the other columns, so with the repeated column kept every column after the key is read from the wrong record position (confirmed: `c` comes back NULL)")
+		if p.FnKey(f) != "(*db.Schema).toIndexColumns" {
+			// SQLite compares a UNIQUE constraint with the key while the key still has every term that was written
+			// (sqlite3CreateIndex runs before convertToWithoutRowidTable removes the repeats)
+			c.Fail(key, call.Pos(), "the key handed to setPK has been through %s first: other constraints must be compared with the key as written — for `PRIMARY KEY(a,a), UNIQUE(a), UNIQUE(b)` WITHOUT ROWID SQLite keeps an index for UNIQUE(a) (it is not the two-term key) and numbers UNIQUE(b) 3; with the key shortened first, UNIQUE(a) is taken for the key and sqlite_autoindex_t_2 names the index on b", p.FnKey(f))
 			continue
 		}
-		why := dedupFunction(p, f)
-		c.Check(why == "", key, call.Pos(), "the constraint's columns pass through %s, which keeps the first occurrence of every key column %s", p.FnKey(f), why)
+		c.Pass(key, call.Pos(), "setPK gets the constraint's columns as written")
+	}
+	// … and what is stored as Schema.PK when newCreateTable is done is the key without its repeated columns
+	var final *ssa.Store
+	var dedup *ssa.Function
+	for _, in := range instrs(fn) {
+		st, ok := in.(*ssa.Store)
+		if !ok || fieldName(st.Addr) != "PK" {
+			continue
+		}
+		call, ok := st.Val.(*ssa.Call)
+		if !ok || call.Call.StaticCallee() == nil || !p.InModule(call.Call.StaticCallee()) || len(call.Call.Args) != 1 {
+			continue
+		}
+		ld, ok := call.Call.Args[0].(*ssa.UnOp)
+		if !ok || ld.Op != token.MUL || fieldName(ld.X) != "PK" {
+			continue
+		}
+		final, dedup = st, call.Call.StaticCallee()
+	}
+	if final == nil {
+		c.Fail("stored WITHOUT ROWID key", fn.Pos(), "newCreateTable never replaces Schema.PK by its de-duplicated form: for PRIMARY KEY (a, b, a) SQLite stores (a, b) and then the other columns, so with the repeated column kept every column after the key is read from the wrong record position (confirmed: `c` comes back NULL)")
+	} else {
+		why := dedupFunction(p, dedup)
+		// nothing compares against the key after it was shortened, and every successful return comes after it
+		late := ""
+		seen := map[*ssa.BasicBlock]bool{}
+		var walk func(b *ssa.BasicBlock, from int)
+		walk = func(b *ssa.BasicBlock, from int) {
+			for _, in := range b.Instrs[from:] {
+				if cs, ok := in.(ssa.CallInstruction); ok && cs.Common().StaticCallee() != nil {
+					switch p.FnKey(cs.Common().StaticCallee()) {
+					case "(*db.Schema).setPK", "(*db.Schema).addIndex":
+						late = p.Pos(cs.Pos())
+					}
+				}
+			}
+			for _, sc := range b.Succs {
+				if !seen[sc] {
+					seen[sc] = true
+					walk(sc, 0)
+				}
+			}
+		}
+		walk(final.Block(), instrIndex(final)+1)
+		skipped := ""
+		for _, r := range returnsOf(fn) {
+			if len(r.Results) == 2 && isNilConst(r.Results[1]) && !(final.Block() == r.Block() || final.Block().Dominates(r.Block())) {
+				skipped = p.Pos(r.Pos())
+			}
+		}
+		switch {
+		case why != "":
+			c.Fail("stored WITHOUT ROWID key", final.Pos(), "Schema.PK is replaced by %s of itself, which is expected to keep the first occurrence of every key column %s", p.FnKey(dedup), why)
+		case late != "":
+			c.Fail("stored WITHOUT ROWID key", final.Pos(), "a constraint is still compared with the key at %s after its repeated columns were dropped", late)
+		case skipped != "":
+			c.Fail("stored WITHOUT ROWID key", final.Pos(), "the successful return at %s does not pass the de-duplication of Schema.PK", skipped)
+		default:
+			c.Pass("stored WITHOUT ROWID key", final.Pos(), "after all constraints are processed Schema.PK becomes %s(Schema.PK): the first occurrence of every key column", p.FnKey(dedup))
+		}
 	}
 	if n == 0 {
 		c.Undecided("table-level WITHOUT ROWID key", fn.Pos(), "newCreateTable has no setPK call with a computed key any more")
@@ -675,13 +732,12 @@ func dedupFunction(p *Program, f *ssa.Function) string {
 	return ""
 }
 
-
 func runConstraintOrder(c *Ctx) {
 	p := c.P
 	t := &Termer{P: p}
 	// (a) the parser: in makeColumnDef's UNIQUE case something is stored that depends on whether PRIMARY KEY was seen
 	mk := c.MustFunc("sql", "makeColumnDef")
-	orderField := ""
+	orderField, repeated := "", ""
 	if mk != nil {
 		_, paths, ok := bodyPaths(p, mk, t)
 		if !ok {
@@ -700,8 +756,24 @@ func runConstraintOrder(c *Ctx) {
 				for _, e := range lp.Events {
 					if e.Kind == "store" && e.Name != "Unique" && strings.Contains(e.Val, ".PrimaryKey") && strings.HasPrefix(e.Val, "!") {
 						orderField = e.Name
+						// only the first UNIQUE of a column says which came first
+						fresh := false
+						for _, l := range lp.Lits {
+							if strings.HasSuffix(reOrd.ReplaceAllString(reGen.ReplaceAllString(l.Subject, ""), ""), ".Unique") && (l.Op == token.EQL || l.Op == token.NEQ) {
+								isTrue := ((l.C == "true") == l.Val) == (l.Op == token.EQL)
+								if !isTrue {
+									fresh = true
+								}
+							}
+						}
+						if !fresh {
+							repeated = "[" + pathDesc(lp) + "]"
+						}
 					}
 				}
+			}
+			if orderField != "" {
+				c.Check(repeated == "", "makeColumnDef: a repeated UNIQUE", mk.Pos(), "%s", orStr(map[bool]string{true: "", false: "the record of which constraint came first is written again by every UNIQUE of the column, on path " + repeated + ": `a TEXT UNIQUE PRIMARY KEY DESC UNIQUE` is taken for PRIMARY KEY first and its index reported DESC, where SQLite made it (ASC) for the first UNIQUE"}[repeated == ""], "the order is recorded by the column's first UNIQUE only"))
 			}
 			c.Check(orderField != "", "makeColumnDef records the order", mk.Pos(), "%s", map[bool]string{
 				true:  "when UNIQUE is met, whether PRIMARY KEY has been met already is recorded (field " + orderField + ")",
